@@ -431,6 +431,7 @@ from . import mustcall
 
 from . import vocab
 
+
 OBLIGATIONS = [
     ('C14.O1', 'totality of decode', 'no open panic-capable site and no unreviewed external callee in the call-graph closure of '
      'compression::decode; every site is discharged by analysis (no review entries): every byte string yields Ok or Err.', o1),
